@@ -578,6 +578,11 @@ func (e *Env) contractForm(name string, n *ast.CallExpr) (Value, bool) {
 			e.divFacts(q, a, b)
 		}
 		return Scalar{q, mathIntType}, true
+	case "floormod":
+		// floormod(a, b): a - b*floor(a/b) for b > 0 (SMT-LIB integer modulus)
+		a := e.toIntTerm(e.derefBig(e.expr(n.Args[0])))
+		b := e.toIntTerm(e.derefBig(e.expr(n.Args[1])))
+		return Scalar{EMod(a, b), mathIntType}, true
 	case "sum":
 		// sum(k, lo, hi, body): finite sum over a constant range (expanded)
 		if len(n.Args) != 4 {
